@@ -26,7 +26,7 @@ LEVEL = "proof"
 REQUIRED_THEOREMS = [
     "basis_orthonormal", "basis_right_handed", "basisOp_handedness", "basis_is_normalised_jacobian",
     "metric_eq_jacobian_gram", "bipolar_basis_orthonormal", "bisph_basis_orthonormal", "order_consistent",
-    "operators_use_component_order_cyl",
+    "operators_use_component_order_cyl", "vectorToCartesianChecked_spec",
     "unit_field_maps_to_basis_vector", "cyl_axial_unit_field_maps_to_azimuthal",
     "order_consistent_cyl_partial", "order_consistent_op", "radial_field_maps_to_position",
     "products_invariant3", "products_invariant_polar", "products_invariant_spherical",
@@ -734,12 +734,14 @@ def leg_vtc(ctx, P, rng, n):
     for cls in ("polar", "spherical", "cylindrical", "cartesian"):
         spec = gen_curv_grid(rng, cls, 2, 4) if cls in OP_ORDER else gen_cart_grid(rng)
         for what in ("points", "components", "batch"):
-            vtc_malformed_case(ctx, {"leg": "vtc-malformed", "spec": spec, "wrong": what})
+            vtc_malformed_case(ctx, P, {"leg": "vtc-malformed", "spec": spec, "wrong": what})
 
 
-def vtc_malformed_case(ctx, case):
+def vtc_malformed_case(ctx, P, case):
     """`_vector_to_cartesian` with a wrong number of coordinates / components / a batch of components whose
-    shape does not match the batch of points: the `DimensionError` branch (also the replay of such a case)"""
+    shape does not match the batch of points: the `DimensionError` branch (also the replay of such a case).
+    The first two are also put to the model (`vectorToCartesianChecked`); the batch-shape check has no
+    counterpart in the pointwise model and is monitored only"""
     from pde.grids.coordinates.base import DimensionError
     spec, what = case["spec"], case["wrong"]
     g = build(spec)
@@ -760,6 +762,17 @@ def vtc_malformed_case(ctx, case):
     if got != "DimensionError":
         ctx.monitor_fail("vtc-malformed", case, got, "DimensionError", "_vector_to_cartesian: wrong shape accepted",
                          key=other_key(spec, "GridBase._vector_to_cartesian", "shape check"))
+    if what != "batch":
+        def cont(resp):
+            val = model_ok(ctx, resp, "vtc-malformed", case)
+            if val is None:
+                return
+            ctx.impl_traces += 1
+            if (val == "DimensionError") != (got == "DimensionError"):
+                ctx.disagree("vtc-malformed", case, val if isinstance(val, str) else "a vector", got,
+                             "_vector_to_cartesian shape checks")
+        P.add("c19.tocart_checked", {"cls": spec["cls"], "n": len(spec["shape"]), "ncoords": int(np.size(pts)),
+                                     "pt": ["1", "0", "1", "0"], "comps": ["1"] * int(np.size(comps))}, cont)
 
 
 
@@ -2013,7 +2026,7 @@ def run_case(col, P, case):
     elif leg == "fields":
         fields_case_guarded(col, P, case)
     elif leg == "vtc-malformed":
-        vtc_malformed_case(col, case)
+        vtc_malformed_case(col, P, case)
     elif leg in SUBPROCESS_LEGS:
         mode = case.get("mode")
         if mode not in MODE_ENV:
